@@ -293,13 +293,13 @@ def outcomes(I, h, N=2, NE=2):
 
 CR = ["types", "asm", "vm", "check"]
 HARNESSES = {
-    "scheduling": dict(props=["C01", "C03", "C06"], crates=CR, fn=scheduling,
+    "scheduling": dict(props=["C01", "C03", "C06", "C07"], crates=CR, fn=scheduling,
         params=dict(quick=dict(N=3, NE=2), thorough=dict(N=3, NE=3)), witnesses=["dag-ok", "malformed", "cyclic", "dangling"],
         bound=dict(quick="1..3 nodes, <=2 edges, every edge_start and edge target any u16, one post-read flag per node, both passes over a shared cache; all runner outcomes succeed",
                    thorough="1..3 nodes, <=3 edges"),
         timeout=dict(quick=900, thorough=3300), max_paths=dict(quick=400000, thorough=3000000),
         replay=dict(kind="check_graph")),
-    "flat_level": dict(props=["C01"], crates=CR, fn=flat_level, params=dict(quick=dict(N=3), thorough=dict(N=4)),
+    "flat_level": dict(props=["C01", "C07"], crates=CR, fn=flat_level, params=dict(quick=dict(N=3), thorough=dict(N=4)),
         witnesses=["ok", "ok-data", "unsatisfied", "failing"],
         bound=dict(quick="one level of 2..3 independent leaves, each true / false / data output / failing, both values of collect_all_failures, symbolic gas", thorough="2..4 leaves"),
         replay=dict(kind="check_flat")),
